@@ -253,13 +253,9 @@ def inFragmentCB (ordf : List World → List World) (dordf : List Var → List V
 def fragXStaticB (G : MG Name) (O C : Event) : Bool :=
   fragCStaticB G O C && !O.isEmpty && decide (C.length = 1)
 
-/-- every outcome descends from the condition: the exchange turns EVERY outcome `Y` into `Y_x`, and the counterfactual graph of
-the exchanged outcomes keeps every `Y_x` (no `Y_x` is merged into `Y`) -/
-def exchangeAllB (ordf : List World → List World) (G : MG Name) (cf : MG Var) (O : Event) (c : Var) (val : Iv) : Bool :=
-  (match exchangeOutcomes cf O c val with | .ok no' => decide (no' = exOut O c.name) | _ => false) &&
-  (match makeCounterfactualGraph ordf G (exOut O c.name) with
-   | .ok (_, some nev2) => (exOut O c.name).all (fun p => nev2.has p.1)
-   | _ => true)
+/-- EVERY outcome descends from the condition in the counterfactual graph: the exchange turns every outcome `Y` into `Y_x` -/
+def exchangeAllB (cf : MG Var) (O : Event) (c : Var) : Bool :=
+  O.all fun p => match cf.ancestorsInclusive [p.1] with | .ok anc => elem' c anc | _ => false
 
 /-- NO outcome descends from the condition: the exchange leaves the outcomes as they are -/
 def exchangeNoneB (cf : MG Var) (O : Event) (c : Var) : Bool :=
@@ -273,7 +269,7 @@ def exchangeB (ordf : List World → List World) (G : MG Name) (O C : Event) : B
     (match makeCounterfactualGraph ordf G (O ++ C) with
      | .ok (cf, some _) =>
        (match firstExchangeable cf O.keys C.keys with
-        | .ok (some _) => exchangeAllB ordf G cf O c val || exchangeNoneB cf O c
+        | .ok (some _) => exchangeAllB cf O c || exchangeNoneB cf O c
         | _ => false)
      | _ => true)
   | _ => false
